@@ -45,6 +45,10 @@ def c16(run):
     for i, c in enumerate(cases):
         c["id"] = i
     design_bad = collections.Counter((c["predicted"]["kind"]) for c in cases if not c["allowed"])
+    unclassified = [c for c in cases if not c["allowed"] and not c["kf"]]
+    if unclassified:
+        vlib.log("DESIGN-COUNTEREXAMPLE property=C16 SyncerTail.tla: %d rows outside the property layer that are no recorded finding, e.g. %s; "
+                 "replaying on the code" % (len(unclassified), json.dumps(unclassified[0]["in"])))
     run.cov["design_rows_outside_allowed"] = dict(design_bad)
     run.cov["rows_total"] = len(cases)
     run.cov["exhaustive"] = True
@@ -64,6 +68,8 @@ def c16(run):
         return {"bt0": i.get("bt") == 0, "empty_store": i.get("tail") == 0, "sfh": i.get("sfh", 0) > 0,
                 "blocks_faster_than_blockTime": faster, "new_head_beyond_local_head_plus_1": i.get("tail", 0) != 0 and nh > i.get("shead", 0) + 1}
     judge(run, cases, "TestTail", "SyncerTailTrace", ["C16_"], shards=8, pkg="synch", sig_fn=sig)
+    if unclassified and not run.violations:
+        raise vlib.Inconclusive("SyncerTail.tla predicts %d violating rows that the real code did not reproduce" % len(unclassified))
 
 
 @register("C19")
